@@ -23,6 +23,7 @@ FRAGMENTS = {
     'kem.rs': 'kem.rs',
     'setup.rs': 'setup.rs',
     'lib.rs': 'lib.rs',
+    'op_mode.rs': 'op_mode.rs',
 }
 
 # Kani function contracts spliced onto REAL functions of the scratch copy (the modular route of Kani: the contract is
@@ -57,6 +58,9 @@ ALL = [
     H('open_state_machine_model', ['C05'], tier='thorough'),
     H('seal_alloc_bounded', ['C14', 'C01', 'C13'], bound='plaintext length <= 4, model AEAD'),
     H('write_exact_tag', ['C12']),
+    H('aead_tag_from_bytes_full', ['C12', 'C06', 'C13']),
+    H('open_alloc_model_bounded', ['C05', 'C06', 'C14', 'C13'], tier='thorough', bound='ciphertext length <= 20, model AEAD'),
+    H('psk_bundle_and_modes_bounded', ['C15'], tier='thorough', bound='psk, psk_id length <= 3'),
     H('write_exact_tag_wrong_len_panics', ['C12'], tier='thorough'),
     H('export_only_seal_panics', ['C11'], tier='thorough', timeout=1500),
     H('export_only_open_panics', ['C11'], tier='thorough', timeout=1500),
@@ -94,6 +98,12 @@ ALL = [
 # Verus obligations that have a Kani twin on the same real function: when the Verus obligation fails, the twin
 # is run (any tier) to obtain a concrete counterexample that is replayed natively
 TWINS = {
+    'aead.rs::open': 'open_alloc_model_bounded',
+    'aead.rs::from_bytes': 'aead_tag_from_bytes_full',
+    'op_mode.rs::new': 'psk_bundle_and_modes_bounded',
+    'op_mode.rs::mode_id': 'psk_bundle_and_modes_bounded',
+    'op_mode.rs::get_psk_bytes': 'psk_bundle_and_modes_bounded',
+    'op_mode.rs::get_psk_id': 'psk_bundle_and_modes_bounded',
     'seal_in_place_detached': 'seal_state_machine_model',
     'open_in_place_detached': 'open_state_machine_model',
     'gen_keypair': 'gen_keypair_depends_only_on_rng',
@@ -224,7 +234,19 @@ def playback(h):
         tests = []
         for root, _, fs in os.walk(os.path.join(sc, 'src')):
             for f in fs:
-                txt = open(os.path.join(root, f)).read()
+                fp = os.path.join(root, f)
+                txt = open(fp).read()
+                # Kani sometimes writes the same generated test twice (same name): keep the first copy only
+                seen = set()
+                def dedupe(m):
+                    if m.group(1) in seen:
+                        return ''
+                    seen.add(m.group(1))
+                    return m.group(0)
+                txt2 = re.sub(r'(?:[ \t]*///[^\n]*\n|[ \t]*\n)*[ \t]*#\[test\]\s*fn (kani_concrete_playback_\w+)\(\) \{.*?\n\s*\}\n', dedupe, txt, flags=re.S)
+                if txt2 != txt:
+                    open(fp, 'w').write(txt2)
+                    txt = txt2
                 for m in re.finditer(r'/// Check for `(?!cover)[^\n]*\n\s*\n?\s*#\[test\]\s*fn (kani_concrete_playback_\w+)\(\) \{.*?\n\s*\}', txt, re.S):
                     tests.append((m.group(1), m.group(0)))
         if not tests:
@@ -236,7 +258,7 @@ def playback(h):
         cmd += ['--', tests[0][0]]
         p = subprocess.run(cmd, cwd=sc, capture_output=True, text=True, timeout=900, env=env2)
         out = p.stdout + p.stderr
-        lines = [l for l in out.splitlines() if re.search(r'^test |panicked|assert|test result|^error\[', l)]
+        lines = [l for l in out.splitlines() if re.search(r'^test |panicked at|^assertion|^  left|^ right|test result|^error\[', l)]
         native = 'FAILS natively (counterexample confirmed on the real code)' if 'test result: FAILED' in out else \
                  ('passes natively (Kani counterexample NOT reproduced)' if 'test result: ok' in out else 'native run did not complete')
         return {'test': tests[0][1].replace(sc, '<scratch>'), 'native': native, 'native_output': '\n'.join(lines[:12])}
